@@ -35,10 +35,7 @@ const c09Q = "www.department-of-redundancy.subsidiary-office-west.example.org."
 
 var c09ShapeNames = []string{"A-qname", "A-other", "CNAME-suffix", "TXT200", "A-escaped", "AAAA-qname", "MX-suffix", "SRV"}
 
-const (
-	c09TXT = 3
-	c09ESC = 4
-)
+const c09ESC = 4 // index of the escaped-owner shape in c09ShapeNames
 
 // c09RR builds the record of shape sh for position pos (pos only varies address octets / preference so
 // that the records of one message are not all equal).
@@ -85,9 +82,18 @@ func (d c09Msg) String() string {
 		}
 		return "[" + strings.Join(o, " ") + "]"
 	}
-	return fmt.Sprintf("question %s A; answer=%s authority=%s additional=%s opt=%s Compress=%v Truncated=%v tsig=%v",
+	// legend: one record of every shape used (address octets / preference vary with the position)
+	var legend []string
+	seen := map[int]bool{}
+	for p, x := range d.shapes {
+		if !seen[x] {
+			seen[x] = true
+			legend = append(legend, c09ShapeNames[x]+" = "+strings.ReplaceAll(c09RR(x, p).String(), "\t", " "))
+		}
+	}
+	return fmt.Sprintf("question %s IN A; answer=%s authority=%s additional=%s opt=%s (empty OPT, UDP size 1232) Compress=%v Truncated=%v tsig=%v; shapes: %s",
 		c09Q, nm(d.shapes[:d.na]), nm(d.shapes[d.na:d.na+d.nn]), nm(d.shapes[d.na+d.nn:]),
-		[]string{"none", "last", "first"}[d.opt], d.compress, d.tc, d.tsig)
+		[]string{"none", "last", "first"}[d.opt], d.compress, d.tc, d.tsig, strings.Join(legend, " | "))
 }
 
 func c09Build(d c09Msg) *dns.Msg {
